@@ -140,10 +140,17 @@ def wire(F, res):
             res.add([ok("WIRE", key2, w, "%d names: %s" % (len(writer), ",".join(sorted(writer))[:120]))])
 
 
+_KEEP = []
+
+
 def ident(F, res):
     UT = "tx3_tir::model::core::Utxo"
-    h = F.fn("<%s as std::hash::Hash>::hash" % UT)
-    e = F.fn("<%s as std::cmp::PartialEq>::eq" % UT)
+    # (with the crate's own helpers inlined: both may read the identity through a private `fn identity(&self) -> &UtxoRef`)
+    def _h(t, callee):
+        return callee["crate"] == "tx3_tir" and not callee.get("impl_trait") and len(callee["blocks"]) <= 60
+    _KEEP.append(_h)
+    h = mir.inline_calls(F, F.fn("<%s as std::hash::Hash>::hash" % UT), want=_h, depth=2)
+    e = mir.inline_calls(F, F.fn("<%s as std::cmp::PartialEq>::eq" % UT), want=_h, depth=2)
 
     def fields(f):
         out = set()
@@ -169,7 +176,6 @@ def ident(F, res):
         res.add([finding("IDENT", key, where(h), "Hash reads %s but PartialEq reads %s: equal UTxOs may hash differently (or vice versa)" % (sorted(fh), sorted(fe)))])
 
 
-_KEEP = []
 
 
 def gate(F, res):
@@ -217,8 +223,13 @@ def gate(F, res):
                 res.add([ok("GATE", key, w, "supported version is decoded")])
             else:
                 res.add([finding("GATE", key, w, "supported version %s is refused" % v["name"])])
-    g = F.fn("<tx3_tir::encoding::TirVersion as std::convert::TryFrom<&str>>::try_from")
-    errs = [bi for bi, si, s in mir.stmts(g) if s["rv"]["k"] == "agg" and s["rv"].get("adt") == "tx3_tir::encoding::Error" and s["rv"]["variant"] == "UnknownTirVersion"]
+    def _g(t, callee):
+        return callee["crate"] == "tx3_tir" and not callee.get("impl_trait") and len(callee["blocks"]) <= 80
+    _KEEP.append(_g)
+    g = mir.inline_calls(F, F.fn("<tx3_tir::encoding::TirVersion as std::convert::TryFrom<&str>>::try_from"), want=_g, depth=2)
+    # the error may also be built by a closure handed to `ok_or_else` / `map_err`
+    gb = [g] + [F.fns[st["rv"]["closure"]] for _, _, st in mir.stmts(g) if st["rv"]["k"] == "agg" and st["rv"].get("closure") in F.fns]
+    errs = [bi for g_ in gb for bi, si, s in mir.stmts(g_) if s["rv"]["k"] == "agg" and s["rv"].get("adt") == "tx3_tir::encoding::Error" and s["rv"]["variant"] == "UnknownTirVersion"]
     key = g["path"] + "|unknown text is an error"
     if errs:
         res.add([ok("GATE", key, where(g), "fallback arm builds Error::UnknownTirVersion")])
